@@ -1228,6 +1228,11 @@ impl CommandExecutor for DrawExecutor {
                     1 => self.terminal_resolution = TerminalResolution::Medium,
                     _ => return Err(anyhow::anyhow!("SetResolution unknown/unsupported argument: {}", parameters[0])),
                 }
+                // keep the pixel buffer in step with the resolution
+                let res = self.get_resolution();
+                if self.screen.len() != (res.width * res.height) as usize {
+                    self.screen = vec![1; (res.width * res.height) as usize];
+                }
                 match parameters[1] {
                     0 => { // no change
                     }
